@@ -168,3 +168,7 @@ func vpFailoverStaleCache(prop string) {
 	w.checkAll(prop, "a resync pass after the cache caught up")
 }
 
+
+// BOUND: topology 0; same scenario as VerifC01_q_bindVsRecreate (a Bind overlapping the deletion and re-creation of the pod under the same name with a new UID, symbolic window 0..12), checked under C04: the live incarnation keeps the IP it was bound with
+// ASSUME: C04: same scenario as VerifC01_q_bindVsRecreate, checked under C04
+func VerifC04_q_bindVsRecreate() { vpBindVsRecreate("C04") }
